@@ -141,6 +141,21 @@ def noCaseCollisionMap : JM → Bool
   | .cons _ v t => noCaseCollision v && noCaseCollisionMap t
 end
 
+mutual
+/-- no number literal of the document is rounded differently by "decimal → float64 → float32" and "decimal → float32". -/
+def f32StableDoc : J → Bool
+  | .num lit => decide (parseFloat 32 true lit = parseFloat 32 false lit)
+  | .arr l => f32StableList l
+  | .obj m => f32StableMap m
+  | _ => true
+def f32StableList : JL → Bool
+  | .nil => true
+  | .cons h t => f32StableDoc h && f32StableList t
+def f32StableMap : JM → Bool
+  | .nil => true
+  | .cons _ v t => f32StableDoc v && f32StableMap t
+end
+
 /-! ### re-casing of keys (type directed: the keys of a map are data, the keys of a struct are field names) -/
 
 /-- the field (looked up through embedded structs, in declaration order) whose lower-cased key is `lk`. -/
@@ -198,7 +213,7 @@ def plainTy : Ty → Bool
   | .struct fs => plainFields fs && structRequired fs
 def plainFields : Fields → Bool
   | .nil => true
-  | .cons f t rest => !f.optional && !f.embedded && plainTy t && plainFields rest
+  | .cons f t rest => !f.optional && !f.embedded && !f.hasExt && plainTy t && plainFields rest
 end
 
 def Fields.keys : Fields → List Str
